@@ -116,6 +116,9 @@ def discrete_specs(tier):
     for lik in ("none", "mean", "mixture"):
         specs.append({"prior": "bernoulli", "support": [0, 1], "probs": [0.7, 0.02], "explicit": None, "lik": lik})
     specs.append({"prior": "bernoulli", "support": [0, 1], "probs": [0.7, 0.02], "explicit": [0, 1], "lik": "mean"})
+    # the kernel is built while one outcome has prior probability exactly 0; the probabilities change later
+    specs.append({"prior": "finite", "support": [0.0, 1.0, 2.0], "probs": [[0.0, 0.4, 0.6], [0.3, 0.3, 0.4], [0.5, 0.5, 0.0]], "explicit": None, "lik": "mean"})
+    specs.append({"prior": "finite", "support": [-1.0, 2.5], "probs": [[1.0, 0.0], [0.25, 0.75]], "explicit": None, "lik": "none"})
     # an integer-valued current value with a fractional outcome grid (extracted and explicit)
     specs.append({"prior": "finite", "support": [0.5, 1.0, 2.0], "probs": PROBS[3][:2], "explicit": None, "lik": "mean", "z_int": 1})
     specs.append({"prior": "finite", "support": [0.5, 1.0, 2.0], "probs": PROBS[3][:2], "explicit": [0.5, 1.0, 2.0], "lik": "none", "z_int": 1})
